@@ -29,6 +29,10 @@ REG = {
    text="Decision half proved in coq/Properties/C07.v: the guard exactly as coded in binary64 (Coq primitive floats, kernel-evaluated) refuses whenever the planned deletions exceed t percent of the destination entries, for every destination of up to 200 entries, every d, every t in 0..100 (finite sweep lifted by forallb_forall); for unbounded sizes the same statement is proved relative to the standard model of rounding (theorem named _partial); default threshold protects against an empty source; CLI range 0..100. Placement half (refusal before any change, non-zero status, destination untouched) is checked on the real binary over generated worlds whose ratios sit just below/at/above the threshold, and the binary's decision is compared with the model evaluated inside coqc.",
    note="Partial: the unbounded theorem assumes the standard model |fl x - x| <= 2^-53 |x| and exact int->f64 conversion (instantiation trusted; Flocq bridge not built); refusal-before-any-change is validated by runs, its engine-level theorem is part of C06's engine model. Stdlib real axioms (sig_forall_dec, functional_extensionality_dep) under the _partial theorem; primitive float/int63 operations listed by Print Assumptions are kernel primitives.",
    technique="Rocq proof (kernel float evaluation on a finite domain + real-analysis lemma under the standard rounding model) + binary-level differential runs"),
+ "C08": dict(
+   text="coq/Properties/C08.v over Model/Engine.v: with --dry-run the destination after the run equals the destination before, for every source listing, destination and flag set; the plan does not depend on the flag; the dry run's event list is exactly the plan (create/update/skip/delete incl. the deletion plan) with no errors. The side effects on sy's own state files that happen before the engine's dry-run guard are not in Engine.v: they are checked on the real binary and are known findings C08-KF1..KF4 (checksum DB created, cache file cleared, corrupt resume state deleted, bisync DB created). Tie: twin worlds (dry run vs real run) through the binary with recursive snapshots of source, destination and a private HOME, event multisets compared, dry run compared with Engine.run.",
+   note="Partial: state-file side effects are validated by runs only (no model of main.rs option handling); bisync dry-run covered by snapshots only.",
+   technique="Rocq proof (dry-run execution is the identity; plan independence) + twin-run binary correspondence"),
  "C11": dict(
    text="Theorems in coq/Properties/C11.v over a Gallina model of classifier.rs/resolver.rs/engine.rs/state.rs: for every pair of trees, every strategy, the first sync converges on every path outside the known class (equal size, different content) and loses no version except the loser a non-rename strategy names; the full statement is refuted by a vm_compute witness (C11_refuted_same_size = known finding C11-KF1). Tie: classify_changes/resolve_changes compared with the extracted model exhaustively over an ordered (size,mtime) domain, BisyncEngine::sync compared on edit/sync histories over real directories incl. state-DB rows; specification oracle (convergence, no silent loss) evaluated on the implementation's snapshots; failures count as known only inside a listed class and only while the implementation still equals the model of the pinned code.",
    note="Partial: convergence is proved for first syncs (empty state); with prior state the recorded rows are partial/stale (known findings C11-KF2, C12-KF1/KF2) and the statement is false. SQLite and fs::copy/rename are oracles.",
